@@ -309,8 +309,11 @@ def isinstance_(o, t):
 
 def type_(*a):
   if len(a) == 1:
+    t = type(a[0])
     for cls, rep in _TYPEMAP:
-      if type(a[0]) is cls: return type(rep)
+      if t is cls: return type(rep)
+    if t is SymDict: return dict
+    if t is SymSet: return set
   return type(*a)
 
 
@@ -340,3 +343,200 @@ def reraise_control():
     eng = core.Engine.cur
     if eng is not None: eng.poison(e)
     raise e
+
+
+# ---- containers keyed by possibly-symbolic values ---------------------------------------------------
+def _symkey(k):
+  """must this key be compared by == (forking on aliasing) instead of being hashed?"""
+  if isinstance(k, (SymInt, SymBool, SymStr)): return True
+  if isinstance(k, SymBytes): return True
+  if isinstance(k, tuple): return any(_symkey(x) for x in k)
+  if isinstance(k, (int, str, bytes, float, type(None), type)): return False
+  if type(k).__module__.startswith('pox.'): return deep_sym(k)
+  return False
+
+
+def _same(a, b):
+  if a is b: return True
+  try:
+    return bool(a == b)
+  except Control: raise
+  except Exception:
+    return False
+
+
+class SymDict(dict):
+  """dict whose concrete hashable keys live in the native table and whose symbolic keys live in an association list;
+  every lookup that involves a symbolic key compares with == (one fork per possible alias).  Distinctness of the
+  stored keys is established at insertion, so len() and iteration are concrete."""
+  _sx_symdict = True
+  def __init__(self, *a, **kw):
+    dict.__init__(self)
+    self._sx = []
+    if a or kw: self.update(*a, **kw)
+  def _find(self, k):
+    """-> ('n', key) | ('s', index) | None"""
+    if not _symkey(k):
+      try:
+        if dict.__contains__(self, k): return ('n', k)
+      except TypeError:
+        pass
+      for i, (sk, _) in enumerate(self._sx):
+        if _same(sk, k): return ('s', i)
+      return None
+    for i, (sk, _) in enumerate(self._sx):
+      if _same(sk, k): return ('s', i)
+    for nk in list(dict.keys(self)):
+      if type(nk) in (int, bool, str, bytes, tuple) or type(nk).__module__.startswith('pox.'):
+        if _same(k, nk): return ('n', nk)
+    return None
+  def __getitem__(self, k):
+    f = self._find(k)
+    if f is None:
+      if hasattr(type(self), '__missing__'): return type(self).__missing__(self, k)
+      raise KeyError(k)
+    return dict.__getitem__(self, f[1]) if f[0] == 'n' else self._sx[f[1]][1]
+  def __setitem__(self, k, v):
+    f = self._find(k)
+    if f is None:
+      if _symkey(k): self._sx.append((k, v))
+      else: dict.__setitem__(self, k, v)
+    elif f[0] == 'n': dict.__setitem__(self, f[1], v)
+    else: self._sx[f[1]] = (self._sx[f[1]][0], v)
+  def __delitem__(self, k):
+    f = self._find(k)
+    if f is None: raise KeyError(k)
+    if f[0] == 'n': dict.__delitem__(self, f[1])
+    else: del self._sx[f[1]]
+  def __contains__(self, k): return self._find(k) is not None
+  def get(self, k, d=None):
+    f = self._find(k)
+    if f is None: return d
+    return dict.__getitem__(self, f[1]) if f[0] == 'n' else self._sx[f[1]][1]
+  def pop(self, k, *d):
+    f = self._find(k)
+    if f is None:
+      if d: return d[0]
+      raise KeyError(k)
+    if f[0] == 'n': return dict.pop(self, f[1])
+    return self._sx.pop(f[1])[1]
+  def setdefault(self, k, d=None):
+    f = self._find(k)
+    if f is None: self[k] = d; return d
+    return dict.__getitem__(self, f[1]) if f[0] == 'n' else self._sx[f[1]][1]
+  def update(self, *a, **kw):
+    if a:
+      o = a[0]
+      it = o.items() if hasattr(o, 'keys') else o
+      for k, v in it: self[k] = v
+    for k, v in kw.items(): self[k] = v
+  def __len__(self): return dict.__len__(self) + len(self._sx)
+  def __iter__(self): return iter(list(dict.keys(self)) + [k for k, _ in self._sx])
+  def keys(self): return list(self)
+  def values(self): return list(dict.values(self)) + [v for _, v in self._sx]
+  def items(self): return list(dict.items(self)) + list(self._sx)
+  def clear(self): dict.clear(self); del self._sx[:]
+  def copy(self): return SymDict(self.items())
+  def popitem(self):
+    if self._sx: return self._sx.pop()
+    return dict.popitem(self)
+  def __bool__(self): return len(self) > 0
+  def __eq__(self, o):
+    if not isinstance(o, dict) or len(o) != len(self): return False
+    for k, v in self.items():
+      if k not in o or not _same(o[k], v): return False
+    return True
+  def __ne__(self, o): return not self.__eq__(o)
+  __hash__ = None
+  def __repr__(self): return "SymDict(%r)" % (self.items(),)
+
+
+class SymSet(set):
+  """set counterpart of SymDict"""
+  _sx_symset = True
+  def __init__(self, it=()):
+    set.__init__(self)
+    self._sx = []
+    for x in it: self.add(x)
+  def _find(self, x):
+    if not _symkey(x):
+      try:
+        if set.__contains__(self, x): return ('n', x)
+      except TypeError:
+        pass
+      for i, y in enumerate(self._sx):
+        if _same(y, x): return ('s', i)
+      return None
+    for i, y in enumerate(self._sx):
+      if _same(y, x): return ('s', i)
+    for y in list(set.__iter__(self)):
+      if type(y) in (int, bool, str, bytes, tuple) or type(y).__module__.startswith('pox.'):
+        if _same(x, y): return ('n', y)
+    return None
+  def add(self, x):
+    if self._find(x) is None:
+      if _symkey(x): self._sx.append(x)
+      else:
+        try: set.add(self, x)
+        except TypeError: self._sx.append(x)
+  def discard(self, x):
+    f = self._find(x)
+    if f is None: return
+    if f[0] == 'n': set.discard(self, f[1])
+    else: del self._sx[f[1]]
+  def remove(self, x):
+    if self._find(x) is None: raise KeyError(x)
+    self.discard(x)
+  def __contains__(self, x): return self._find(x) is not None
+  def __len__(self): return set.__len__(self) + len(self._sx)
+  def __iter__(self): return iter(sorted(set.__iter__(self), key=_order) + list(self._sx))
+  def __bool__(self): return len(self) > 0
+  def clear(self): set.clear(self); del self._sx[:]
+  def copy(self): return SymSet(list(self))
+  def update(self, *its):
+    for it in its:
+      for x in list(it): self.add(x)
+  def difference_update(self, *its):
+    for it in its:
+      for x in list(it): self.discard(x)
+  def intersection_update(self, *its):
+    for it in its:
+      keep = SymSet(it)
+      for x in list(self):
+        if x not in keep: self.discard(x)
+  def union(self, *its):
+    r = self.copy(); r.update(*its); return r
+  def difference(self, *its):
+    r = self.copy(); r.difference_update(*its); return r
+  def intersection(self, *its):
+    r = self.copy(); r.intersection_update(*its); return r
+  def issubset(self, o): return all(x in o for x in self)
+  def issuperset(self, o): return all(x in self for x in o)
+  def pop(self):
+    if self._sx: return self._sx.pop()
+    return set.pop(self)
+  __or__ = lambda s, o: s.union(o)
+  __and__ = lambda s, o: s.intersection(o)
+  __sub__ = lambda s, o: s.difference(o)
+  def __ior__(s, o): s.update(o); return s
+  def __iand__(s, o): s.intersection_update(o); return s
+  def __isub__(s, o): s.difference_update(o); return s
+  def __eq__(self, o):
+    if not isinstance(o, (set, frozenset)) or len(o) != len(self): return False
+    return all(x in o for x in self)
+  def __ne__(self, o): return not self.__eq__(o)
+  __hash__ = None
+  def __repr__(self): return "SymSet(%r)" % (list(self),)
+
+
+def _order(x):
+  """deterministic iteration order for the native part (re-executions must see the same sequence: no id()-based order)"""
+  return (type(x).__name__, repr(x) if isinstance(x, (int, str, bytes, tuple, float)) else getattr(x, '__name__', '') or str(getattr(x, 'ID', '')))
+
+
+def set_(*a):
+  return SymSet(*a)
+
+
+def dict_(*a, **kw):
+  return SymDict(*a, **kw)
